@@ -1,4 +1,5 @@
 """MANIFEST.setup_cmd: build what the checks need from files on disk only."""
+import importlib
 import sys
 from . import env
 
@@ -6,16 +7,21 @@ from . import env
 def main():
     ok = env.ensure_deps()
     env.setup()
-    from .refs import kvline, reply
-    n = kvline.selftest() + reply.selftest()
-    try:
-        from .refs import socks5
-        n += socks5.selftest()
-    except ImportError:
-        pass
+    n = 0
+    ran = []
+    for name in ("kvline", "reply", "socks5", "consensus", "addrmodel", "addonion"):
+        try:
+            mod = importlib.import_module("vf.refs." + name)
+        except ImportError:
+            continue
+        st = getattr(mod, "selftest", None)
+        if st is not None:
+            r = st()
+            n += r if isinstance(r, int) else 1
+            ran.append(name)
     import txtorcon
-    print("setup: icontract %s; reference self-tests %d ok; txtorcon from %s" % (
-        "installed" if ok else "UNAVAILABLE", n, txtorcon.__file__))
+    print("setup: icontract %s; reference self-tests ok (%s; %d assertions); txtorcon from %s" % (
+        "installed" if ok else "UNAVAILABLE", ", ".join(ran), n, txtorcon.__file__))
     return 0
 
 
